@@ -181,7 +181,8 @@ def step (j : Json) : Json :=
                     Json.arr (l.map fun (h : Nat) => Json.num (JsonNumber.fromNat h)).toArray).toArray)]
   | "trace" =>
     let c : Cfg := ⟨outpOfName (getStr j "outp"), if getStr j "transport" == "wsgi" then .wsgi else .serverBase,
-                    shapeOfName (getStr j "shape"), sigOfName (getStr j "sig")⟩
+                    shapeOfName (getStr j "shape"), sigOfName (getStr j "sig"),
+                    getBool j "presetdoc"⟩
     let w := worldOf (getObj j "world")
     let r := worldRun F c (injOf j) w
     Json.mkObj [("ok", Json.mkObj [("trace", Json.arr ((r.steps.flatMap (expand w)).map obsJson).toArray),
